@@ -1,1 +1,69 @@
-fn main(){ println!("{}", serde_json::json!({"a":1})); }
+//! focasim — deterministic simulation checks for caio/foca. See /verif/DESIGN.md.
+mod checks;
+mod codec;
+mod frame;
+mod handler;
+mod hist;
+mod id;
+mod models;
+mod monitors;
+mod node;
+mod prng;
+mod script;
+
+use frame::Tier;
+
+fn usage() -> ! {
+    eprintln!("usage: focasim <ID> [--tier quick|thorough] [--replay <file>] | focasim list");
+    std::process::exit(2);
+}
+
+fn main() {
+    let args: Vec<String> = std::env::args().skip(1).collect();
+    if args.is_empty() {
+        usage();
+    }
+    let defs = checks::all();
+    if args[0] == "list" {
+        for d in &defs {
+            println!("{}", d.property);
+        }
+        return;
+    }
+    let id = args[0].clone();
+    let mut tier = match std::env::var("VERIF_TIER").as_deref() {
+        Ok("thorough") => Tier::Thorough,
+        _ => Tier::Quick,
+    };
+    let mut replay: Option<String> = None;
+    let mut i = 1;
+    while i < args.len() {
+        match args[i].as_str() {
+            "--tier" => {
+                i += 1;
+                tier = match args.get(i).map(|s| s.as_str()) {
+                    Some("quick") => Tier::Quick,
+                    Some("thorough") => Tier::Thorough,
+                    _ => usage(),
+                };
+            }
+            "--replay" => {
+                i += 1;
+                replay = Some(args.get(i).cloned().unwrap_or_else(|| usage()));
+            }
+            _ => usage(),
+        }
+        i += 1;
+    }
+    let seed: u64 = std::env::var("VERIF_SEED").ok().and_then(|s| s.parse().ok()).unwrap_or(1);
+    let Some(def) = defs.iter().find(|d| d.property == id) else {
+        eprintln!("unknown check {id}");
+        std::process::exit(2);
+    };
+    node::install_quiet_panic_hook();
+    let code = match replay {
+        Some(path) => frame::replay(def, &path),
+        None => frame::run_check(def, tier, seed),
+    };
+    std::process::exit(code);
+}
